@@ -785,3 +785,54 @@ Fixpoint arrive_all (g : conns) (l : list (nat * bytes)) : conns :=
 (* the segments of connection i in an interleaved arrival order *)
 Definition own (i : nat) (l : list (nat * bytes)) : list bytes :=
   map snd (filter (fun p => (fst p =? i)%nat) l).
+
+(* ------------------------------------------------------------------ *)
+(* both directions of a relayed stream, with half-close.  Either side writes chunks and
+   then ends its direction (FIN / SSH_MSG_CHANNEL_EOF); the other direction may still have
+   data to deliver.  A relay is characterised by which end-of-direction makes it stop
+   altogether (closing both sides and dropping what the other direction still carries):
+     copy (stream): the goroutine client->backend forwards the client's end to the backend
+                    (CloseWrite) and goes on; Handle returns when backend->client ends
+     ssh-proxy:     each copyFn closes its destination channel when its source ends *)
+Inductive dev :=
+| DC (c : bytes)        (* the client writes c *)
+| DCEof                 (* the client ends its direction (half-close) *)
+| DB (c : bytes)        (* the backend writes c *)
+| DBEof.                (* the backend ends its direction *)
+
+Record dstate := mkDst {
+  d_alive : bool;       (* the relay is still running *)
+  d_up : bytes;         (* what the backend has received *)
+  d_down : bytes;       (* what the client has received *)
+  d_beof : bool;        (* the backend has seen the end of the client's direction (or the connection closed) *)
+  d_ceof : bool }.      (* the client has seen the end of the backend's direction (or the connection closed) *)
+
+Definition dstep (stop_on_c stop_on_b : bool) (s : dstate) (e : dev) : dstate :=
+  if d_alive s then
+    match e with
+    | DC c => mkDst true (d_up s ++ c) (d_down s) (d_beof s) (d_ceof s)
+    | DB c => mkDst true (d_up s) (d_down s ++ c) (d_beof s) (d_ceof s)
+    | DCEof => if stop_on_c then mkDst false (d_up s) (d_down s) true true
+               else mkDst true (d_up s) (d_down s) true (d_ceof s)
+    | DBEof => if stop_on_b then mkDst false (d_up s) (d_down s) true true
+               else mkDst true (d_up s) (d_down s) (d_beof s) true
+    end
+  else s.
+
+Definition dst0 : dstate := mkDst true [] [] false false.
+Definition duplex_run (stop_on_c stop_on_b : bool) (l : list dev) : dstate :=
+  fold_left (dstep stop_on_c stop_on_b) l dst0.
+
+Definition copy_duplex := duplex_run false true.
+Definition ssh_duplex := duplex_run true true.
+
+(* what was written in each direction, and the part of a schedule before the relay stops *)
+Definition ups (l : list dev) : bytes := flat_map (fun e => match e with DC c => c | _ => [] end) l.
+Definition downs (l : list dev) : bytes := flat_map (fun e => match e with DB c => c | _ => [] end) l.
+Definition stops (stop_on_c stop_on_b : bool) (e : dev) : bool :=
+  match e with DCEof => stop_on_c | DBEof => stop_on_b | _ => false end.
+Fixpoint before_stop (stop_on_c stop_on_b : bool) (l : list dev) : list dev :=
+  match l with
+  | [] => []
+  | e :: r => if stops stop_on_c stop_on_b e then [] else e :: before_stop stop_on_c stop_on_b r
+  end.
